@@ -14,6 +14,9 @@
 (*    classical *wrong* answer, exported so that a conformance failure can *)
 (*    be classified exactly.                                               *)
 (*  - BestRank: sum of the k leading singular triplets of U Sigma V^H.     *)
+(*  - Wide integers (sign + base-2^14 digits) and WGmresOpt: the same GMRES *)
+(*    optimum for badly scaled real systems (entries up to 10^7, condition  *)
+(*    numbers up to 10^7) whose exact values need hundreds of bits.         *)
 (*                                                                         *)
 (* All values are exact; 32-bit overflow aborts TLC (never silent), the    *)
 (* harness pre-screens its catalog with an exact mirror of these formulas  *)
